@@ -914,6 +914,11 @@ class Engine:
         return outs
 
     def cmp(self, op, a, b, s=None):
+        if isinstance(op, (ast.Is, ast.IsNot, ast.Eq, ast.NotEq)) and a is not b and (getattr(a, "unknown", False) or getattr(b, "unknown", False)):
+            # a value about which nothing is known (loop-carried state the loop specification did not anticipate, havoc'd to "anything"):
+            # whether it is / equals another value is not known either - both outcomes are explored
+            self._unknown_cmps = getattr(self, "_unknown_cmps", 0) + 1
+            return z3.Bool(f"unknown_value_cmp!{self._unknown_cmps}")
         if isinstance(op, (ast.Is, ast.IsNot)):
             def ident(v):
                 # abstract class objects carry their identity in `cid` (two references to the same class are `is`-identical)
@@ -1380,7 +1385,17 @@ class Engine:
                 # nothing to strip when the string cannot start with that character (decided under the path condition)
                 if not self.feasible(s.pc + [z3.PrefixOf(z3.StringVal(args[0]), recv)]):
                     return [(recv, s)]
-                raise Unsupported("lstrip on a symbolic string that may start with the character")
+                # s = ch*k + rest, rest does not start with ch (rest is a fresh name, fixed by these two facts)
+                self._fresh_strs = getattr(self, "_fresh_strs", 0) + 1
+                head, rest = z3.String(f"lstrip_head!{self._fresh_strs}"), z3.String(f"lstrip_rest!{self._fresh_strs}")
+                s = self.fork(s)
+                s.pc += [recv == z3.Concat(head, rest), z3.InRe(head, z3.Star(z3.Re(args[0]))), z3.Not(z3.PrefixOf(z3.StringVal(args[0]), rest))]
+                return [(rest, s)]
+            if name in ("isdecimal", "isdigit") and not args:
+                # every character a decimal digit (A-DIGITS: ASCII plus one other script stand for category Nd), at least one
+                nd = getattr(self, "unicode_nd", None) or [[48, 57]]
+                d_any = z3.Union(*[z3.Range(chr(a), chr(b)) for a, b in nd]) if len(nd) > 1 else z3.Range("0", "9")
+                return [(z3.InRe(recv, z3.Plus(d_any)), s)]
             if name in ("lower", "upper") and not args:
                 return [(PY_CASE[name](recv), s)]        # uninterpreted: only `the same function of the same text` is known
             if name in ("endswith", "startswith") and len(args) == 1:
@@ -1873,6 +1888,9 @@ class Engine:
     def number_loops(self, fn):
         loops = sorted([x for x in ast.walk(fn) if isinstance(x, (ast.For, ast.While))], key=lambda x: (x.lineno, x.col_offset))
         self.loop_ids = {(x.lineno, x.col_offset): i for i, x in enumerate(loops, 1)}
+        self.loop_fns = getattr(self, "loop_fns", {})
+        for x in loops:
+            self.loop_fns[(x.lineno, x.col_offset)] = fn
 
     def loop_outcomes(self, outs_iter, after_normal):
         """shared handling of body outcomes: normal/continue -> after_normal(state); break -> exits loop"""
@@ -1958,6 +1976,7 @@ class Engine:
                 self.assign(n.target, seq.elem(k, it), it)
                 for kind, val, s2 in self.run(n.body, it):
                     if kind in ("normal", "continue"):
+                        self.loop_frame_check(lid, n, spec, s0, h, s2, heads)
                         s2i = s2
                         if s2.ghost.get("Q") and s2.ghost.get("Qterms"):
                             # the assumed universally quantified facts of the path, instantiated at the terms the body read
@@ -2005,12 +2024,81 @@ class Engine:
             self.assign(n.target, v, s)
             for kind, val, s2 in self.run(n.body, s):
                 if kind in ("normal", "continue"):
+                    self.loop_frame_check(lid, n, spec, s0, s, s2)
                     self.oblige(f"loop{lid}/inv-preserved", s2, spec.inv(s2), kind="invariant")
                 elif kind == "break":
                     outs.append(("normal", None, s2))
                 else:
                     outs.append((kind, val, s2))
         return outs
+
+    # ------------------------------------------------------------------ loops with invariants: frame check
+    @staticmethod
+    def _same_value(a, b):
+        if a is b:
+            return True
+        if is_sym(a) and is_sym(b):
+            try:
+                return a.eq(b)
+            except Exception:  # noqa: BLE001
+                return False
+        if is_sym(a) or is_sym(b):
+            return False
+        if isinstance(a, Ref) and isinstance(b, Ref):
+            return a.id == b.id
+        if isinstance(a, (tuple, list)) and isinstance(b, (tuple, list)) and type(a) is type(b):
+            return len(a) == len(b) and all(Engine._same_value(x, y) for x, y in zip(a, b))
+        if isinstance(a, dict) and isinstance(b, dict):
+            return a.keys() == b.keys() and all(Engine._same_value(a[k_], b[k_]) for k_ in a)
+        if isinstance(a, Rec) and isinstance(b, Rec):
+            return a.name == b.name and Engine._same_value(a.f, b.f)
+        try:
+            return type(a) is type(b) and bool(a == b)
+        except Exception:  # noqa: BLE001
+            return False
+
+    def _only_an_inner_loop_target(self, n, name):
+        """`name` is bound only as the target of `for` loops: inside this loop every read of it is inside a nested `for` that binds it,
+        and so is every read of it in the rest of the function - its value at the head of an iteration is never looked at"""
+        fn = getattr(self, "loop_fns", {}).get((n.lineno, n.col_offset))
+        if fn is None:
+            return False
+        covered = set()
+        for x in ast.walk(fn):
+            if isinstance(x, ast.For) and any(isinstance(t_, ast.Name) and t_.id == name for t_ in ast.walk(x.target)):
+                for y in x.body:
+                    covered.update(id(z) for z in ast.walk(y))
+                covered.update(id(z) for z in ast.walk(x.target))
+        for x in ast.walk(fn):
+            if isinstance(x, ast.Name) and x.id == name and id(x) not in covered:
+                if isinstance(x.ctx, ast.Load) or not isinstance(x.ctx, ast.Store):
+                    return False
+                return False          # bound outside a `for` target as well: not this pattern
+        return True
+
+    def loop_frame_check(self, lid, n, spec, before, head, end, heads=None):
+        """A loop under an invariant is executed once from an arbitrary iteration's state (`head` = the entry state `before` with the
+        specification's havoc applied).  That is sound only if everything an iteration can change was havoc'd: a local or a heap
+        cell that exists at the head, that the body leaves with another value, and that the havoc left as it was at entry, would keep
+        its ENTRY value in every later iteration of this execution - the code is then outside what the loop specification covers."""
+        scratch = getattr(spec, "scratch", None) or ()
+        own = {t_.id for t_ in ast.walk(n.target) if isinstance(t_, ast.Name)} if isinstance(n, ast.For) else set()
+        heads = heads or [head]
+        for depth, (fb, fh, fe) in enumerate(zip(before.frames, head.frames, end.frames)):
+            for name, vh in fh.items():
+                if name in own or name in scratch or name.startswith("__") or name not in fb or name not in fe:
+                    continue
+                havocked = any(name in hd.frames[depth] and not self._same_value(fb[name], hd.frames[depth][name]) for hd in heads if depth < len(hd.frames))
+                if not havocked and not self._same_value(vh, fe[name]) and not self._only_an_inner_loop_target(n, name):
+                    raise Unsupported(f"loop {lid} (line {n.lineno}) rebinds `{name}`, which its specification does not expect to change between iterations")
+        for oid, hh in head.heap.items():
+            if oid not in before.heap or oid not in end.heap:
+                continue
+            hb, he = before.heap[oid], end.heap[oid]
+            havocked = any(oid in hd.heap and not self._same_value(hb, hd.heap[oid]) for hd in heads)
+            if not havocked and not self._same_value(hh, he):
+                what = "a list" if isinstance(hh, list) else f"an object with fields {sorted(map(str, hh))[:6]}" if isinstance(hh, dict) else "an object"
+                raise Unsupported(f"loop {lid} (line {n.lineno}) changes {what} that its specification does not expect to change between iterations")
 
     def ex_While(self, n, st):
         lid = self.loop_ids.get((n.lineno, n.col_offset))
@@ -2041,6 +2129,7 @@ class Engine:
                         continue
                     for kind, val, s3 in self.run(n.body, s2):
                         if kind in ("normal", "continue"):
+                            self.loop_frame_check(lid, n, spec, st, h, s3, heads)
                             self.oblige(f"loop{lid}/inv-preserved", s3, spec.inv(s3), kind="invariant")
                         elif kind == "break":
                             outs.append(("normal", None, s3))
